@@ -50,6 +50,8 @@ def rand_list(rng, tier):
             ln = rng.choice(LENS + [0, 1, 2, 3, 5, 8] * 3)
             if tier == 'thorough' and rng.random() < 0.01:
                 ln = rng.choice((70000, 200000))
+            elif rng.random() < 0.004:
+                ln = rng.choice((65534, 65535, 65536, 70000))          # a bulk dump beyond 64 KiB
             style = rng.choice(('zeros', 'max', 'ramp', 'random'))
             m = Message('sysex', data=gen.sysex_payload(ln, style, rng), time=rng.choice((0, 5, 0.5)))
             born = rng.random()
